@@ -22,13 +22,18 @@ D="@DIR@"
 if [ -f "$D/count/$1" ]; then n=$(wc -l < "$D/count/$1"); else n=0; fi
 n=$((n+0))
 echo x >> "$D/count/$1"
-echo "run:$1:$2:$n"
+a="$2"
+case "$a" in
+  @file) a=$(cat arg.txt);;
+  @env) a="$JOBARG";;
+esac
+echo "run:$1:$a:$n"
 o=$(sed -n "$((n+1))p" "$D/plan/$1" 2>/dev/null)
 case "$o" in
   F*) exit ${o#F};;
-  G*) echo "ok:$1:$2:$n" > o.txt; exit ${o#G};;
+  G*) echo "ok:$1:$a:$n" > o.txt; exit ${o#G};;
   O) exit 0;;
-  *) echo "ok:$1:$2:$n" > o.txt;;
+  *) echo "ok:$1:$a:$n" > o.txt;;
 esac
 '''
 
@@ -70,7 +75,8 @@ def gen_sequence(rng, k):
         if r and rng.random() < 0.3:
             events.append(["newdst"])
         events.append(["run", arg, rng.random() < 0.85, vec])
-    return {"vec": vec, "src": src, "plans": plans, "init": init, "events": events, "note": f"random{k}"}
+    return {"vec": vec, "src": src, "plans": plans, "init": init, "events": events, "note": f"random{k}",
+            "carrier": ("cmd", "file", "env")[k % 3]}
 
 
 def directed_sequences():
@@ -104,6 +110,14 @@ def directed_sequences():
     S.append({"vec": False, "src": [("a", 1), ("b", 1), ("c", 1)], "plans": {}, "init": {"a": [["pre", 1]]},
               "events": [["corrupt", "a"], ["corrupt", "b"], ["run", "A", True, False], ["corrupt", "c"], ["put", "z9", [["put", 7]]],
                          ["run", "A", True, False], ["run", "B", True, False]], "note": "corrupt cache files, everything already done"})
+    # the same argument-change and new-destination sequences with the argument carried ONLY by the content of an input
+    # file / ONLY by the value of an environment variable: the input hash must tell the two inputs apart
+    for sq in [q for q in S if q["note"] in ("argument change", "new destination, same cache")]:
+        for carrier in ("file", "env"):
+            S.append(dict(sq, carrier=carrier, note=sq["note"] + f" [{carrier}]"))
+    S.append({"vec": True, "src": [("a", 2), ("b", 1)], "plans": {}, "init": {}, "carrier": "file",
+              "events": [["run", "A", True, True], ["newdst"], ["run", "B", True, True], ["newdst"], ["run", "A", True, True]],
+              "note": "vectorised argument change [file]"})
     return S
 
 
@@ -115,9 +129,15 @@ def worker_main(jobs_fn, res_fn):
     from molli.pipeline import Job, JobInput, JobOutput, jobmap
     jobs = json.load(open(jobs_fn))
 
-    def prep(self, m, arg="A", item=None, **kw):
+    def prep(self, m, arg="A", item=None, carrier="cmd", **kw):
+        # how the job argument reaches the program: in the command text, only as the CONTENT of an input file, or only
+        # as the VALUE of an environment variable (the input differs in exactly that place between arguments)
         idx = getattr(m, "_conf_id", None)
         nm = m.name if idx is None else f"{m.name}.{idx}"
+        if carrier == "file":
+            return JobInput(nm, commands=[(f"sh {item} {nm} @file", "c")], files={"arg.txt": arg.encode()}, return_files=self.return_files)
+        if carrier == "env":
+            return JobInput(nm, commands=[(f"sh {item} {nm} @env", "c")], envars={"JOBARG": arg}, return_files=self.return_files)
         return JobInput(nm, commands=[(f"sh {item} {nm} {arg}", "c")], return_files=self.return_files)
 
     def post_payload(self, out, m, **kw):            # needs the return file, like every shipped driver's post
@@ -181,11 +201,14 @@ def worker_main(jobs_fn, res_fn):
             job = drv.jv if vec else drv.j
             # input hash -> argument it was prepared with
             h2a = {}
+            carrier = sq.get("carrier", "cmd")
             with src.reading():
                 for key, L in sq["src"]:
                     for a in ("A", "B"):
-                        pr = job.prepare(src[key], arg=a, item=item)
+                        pr = job.prepare(src[key], arg=a, item=item, carrier=carrier)
                         for inp in (list(pr) if vec else [pr]):
+                            if h2a.get(bytes(inp.hash), a) != a:
+                                res.setdefault("hash_collisions", []).append([inp.jid, carrier])
                             h2a[bytes(inp.hash)] = a
             cache = os.path.join(d, "cache")
             ndst = 0
@@ -211,7 +234,7 @@ def worker_main(jobs_fn, res_fn):
                 if ev[0] == "run":
                     try:
                         jobmap(job, src, dst, cache_dir=cache, scratch_dir=os.path.join(d, "scr"), n_workers=4,
-                               kwargs={"arg": ev[1], "item": item}, strict_hash=ev[2], log_level="critical")
+                               kwargs={"arg": ev[1], "item": item, "carrier": carrier}, strict_hash=ev[2], log_level="critical")
                     except Exception as e:
                         raised = f"{type(e).__name__}: {e}"[:300]
                 elif ev[0] == "corrupt":
@@ -308,6 +331,9 @@ def judge(sq, res):
     vec = sq["vec"]
     src = dict((k, L) for k, L in sq["src"])
     prev = {"dst": {k: [list(x) for x in val] for k, val in sq["init"].items()}, "cache": {}, "count": {}}
+    for jid, carrier in res.get("hash_collisions", []):
+        v.append((f"C18:hash:different-inputs-same-hash:{carrier}", f"the JobInputs prepared for {jid} with arguments A and B "
+                  f"(argument carried by: {carrier}) have the same hash: a cached output of one is taken for the other's"))
     if res.get("residue"):
         v.append(("C18:scratch-residue", f"scratch directory not empty after the runs: {res['residue']}"))
     for ev, o in zip(sq["events"], res["obs"]):
@@ -391,7 +417,9 @@ def run(ctx, rep):
                     "CPython ThreadPoolExecutor/subprocess, /bin/sh, msgpack, the UKV library files (C02..C04)"]
     rep.assumptions += ["work items are independent (own scratch directory, own counter): the model executes them in sequence",
                         "every execution writes an output file (run_local does unless it has no commands / a capture file vanishes: C17)",
-                        "sha3-512 of the msgpack'd JobInput distinguishes the inputs used (modelled by the job argument)",
+                        "sha3-512 of the msgpack'd JobInput distinguishes the inputs used (modelled by the job argument); CHECKED on every "
+                        "sequence: the inputs prepared with the two arguments must have different hashes whether the argument is "
+                        "carried by the command text, only by the content of an input file, or only by the value of an envar",
                         "source keys contain no '.', vectorised items have < 10 sub-items (cache file names <key>.<i>.out)",
                         "the post function needs the return file (raises without it), as every shipped driver's does"]
     ok, out, where = vlib.build_props(ctx, rep, "C18")
@@ -407,6 +435,7 @@ def run(ctx, rep):
         nexec = sum(r["obs"][-1]["count"].values()) if r["obs"] else 0
         rep.case(key=t if nexec else None, sample={"note": sq["note"], "events": sq["events"], "final": r["obs"][-1]} if i % 13 == 2 else None)
         rep.count("job:" + ("vectorised" if sq["vec"] else "single"))
+        rep.count("argument-carried-by:" + sq.get("carrier", "cmd"))
         rep.count("runs", sum(1 for e in sq["events"] if e[0] == "run"))
         rep.count("executions", nexec)
         for sig, text in judge(sq, r):
